@@ -1,1 +1,890 @@
 // Kani contract harnesses for /repo/parquet/src/util/bit_util.rs (child module: sees private items via super::)
+use super::*;
+#[path = "/verif/kani/support/spec.rs"]
+mod spec;
+use spec::*;
+
+// ---------------------------------------------------------------------------------------------
+// independent spec helpers (bit i of a little-endian bit-packed stream = spec::bit)
+// ---------------------------------------------------------------------------------------------
+
+/// bit j of a u64
+fn b64(v: u64, j: usize) -> bool {
+    (v >> j) & 1 == 1
+}
+
+/// symbolic byte string of symbolic length <= N living in a fixed array (no allocation)
+fn any_prefix<const N: usize>() -> ([u8; N], usize) {
+    let a: [u8; N] = kani::any();
+    let n: usize = kani::any();
+    kani::assume(n <= N);
+    (a, n)
+}
+
+// ---------------------------------------------------------------------------------------------
+// C05 scalar helpers
+// ---------------------------------------------------------------------------------------------
+
+// Contract (C05): trailing_bits(v, n) = v mod 2^n for every v and every n (n >= 64 gives v):
+// bit j of the result is bit j of v when j < n and 0 otherwise, for every j < 64.
+// @unit name=trailing_bits_def props=C05 kind=complete fns=trailing_bits
+#[kani::proof]
+fn trailing_bits_def() {
+    let v: u64 = kani::any();
+    let n: usize = kani::any();
+    let j: usize = kani::any();
+    kani::assume(j < 64);
+    let r = trailing_bits(v, n);
+    assert!(b64(r, j) == (j < n && b64(v, j)));
+    kani::cover!(n == 0);
+    kani::cover!(n == 63 && r != v);
+    kani::cover!(n == 64);
+    kani::cover!(n > 64);
+}
+
+// Contract (C05): num_required_bits(x) is the least r in 0..=64 with x < 2^r.
+// @unit name=num_required_bits_def props=C05 kind=complete fns=num_required_bits
+#[kani::proof]
+fn num_required_bits_def() {
+    let x: u64 = kani::any();
+    let r = num_required_bits(x) as u32;
+    assert!(r <= 64);
+    // x < 2^r
+    assert!(r == 64 || (x >> r) == 0);
+    // not x < 2^(r-1)
+    assert!(r == 0 || (x >> (r - 1)) != 0);
+    kani::cover!(r == 0);
+    kani::cover!(r == 1);
+    kani::cover!(r == 64);
+}
+
+// Contract (C05): ceil(v, d) is the least q with q*d >= v. Complete for u8 (every v, every d != 0,
+// products taken in u32); for the wide types every call site in the crate uses d = 8, checked for all
+// v: usize and all v: i64 (negative v included: rounds toward +infinity) without a 64-bit multiplier.
+// @unit name=ceil_u8_def props=C05 kind=complete fns=ceil
+#[kani::proof]
+fn ceil_u8_def() {
+    let v: u8 = kani::any();
+    let d: u8 = kani::any();
+    kani::assume(d != 0);
+    let q = ceil(v, d) as u32;
+    assert!(q * d as u32 >= v as u32);
+    assert!(q == 0 || (q - 1) * (d as u32) < v as u32);
+    kani::cover!(v % d == 0 && v > 0);
+    kani::cover!(v % d != 0);
+    kani::cover!(v == 0);
+}
+
+// @unit name=ceil_by8_def props=C05 kind=complete fns=ceil
+#[kani::proof]
+fn ceil_by8_def() {
+    let v: usize = kani::any();
+    let q = ceil(v, 8usize);
+    // q = floor(v / 2^3) + [v mod 2^3 != 0]
+    assert!(q == (v >> 3) + ((v & 7 != 0) as usize));
+    let s: i64 = kani::any();
+    let qs = ceil(s, 8i64);
+    // arithmetic shift = floor division, for negative values too
+    assert!(qs == (s >> 3) + ((s & 7 != 0) as i64));
+    kani::cover!(v & 7 == 0 && v > 0);
+    kani::cover!(v == usize::MAX);
+    kani::cover!(s < 0 && s & 7 != 0);
+    kani::cover!(s == i64::MAX);
+}
+
+// Contract (C05/C19): get_bit(data, i) is bit (i mod 8) of byte (i div 8), LSB first, for every i inside data.
+// @unit name=get_bit_def props=C05 kind=bounded bound=data<=16_bytes fns=get_bit
+#[kani::proof]
+fn get_bit_def() {
+    let (a, n) = any_prefix::<16>();
+    let i: usize = kani::any();
+    kani::assume(i < n * 8);
+    assert!(get_bit(&a[..n], i) == bit(&a, i));
+    kani::cover!(i == 127);
+    kani::cover!(i == 0 && get_bit(&a[..n], i));
+}
+
+// Contract (C05): read_num_bytes::<u64>(size, src) (precondition from the call sites: size <= 8 and
+// size <= src.len()) is the little-endian integer formed by the first `size` bytes, zero-extended.
+// @unit name=read_num_bytes_u64_def props=C05 kind=bounded bound=src<=12_bytes fns=read_num_bytes
+#[kani::proof]
+#[kani::unwind(10)]
+fn read_num_bytes_u64_def() {
+    let (a, n) = any_prefix::<12>();
+    let size: usize = kani::any();
+    kani::assume(size <= 8 && size <= n);
+    let v: u64 = read_num_bytes::<u64>(size, &a[..n]);
+    let j: usize = kani::any();
+    kani::assume(j < 64);
+    assert!(b64(v, j) == (j < size * 8 && bit(&a, j)));
+    kani::cover!(size == 0);
+    kani::cover!(size == 8 && v == u64::MAX);
+    kani::cover!(size == 3 && n == 12);
+}
+
+// ---------------------------------------------------------------------------------------------
+// C05 BitWriter: byte/bit layout and accounting
+// ---------------------------------------------------------------------------------------------
+
+/// precondition of put_value taken from its debug assertions / call sites: n <= 64 and v < 2^n
+fn any_value_of_width(n: usize) -> u64 {
+    let v: u64 = kani::any();
+    kani::assume(n <= 64);
+    kani::assume(n == 64 || (v >> n) == 0);
+    v
+}
+
+// Contract (C05): after put_value(v_0,n_0); ...; put_value(v_{K-1},n_{K-1}) on a fresh writer (every
+// width 0..=64, every value of that width) the stream is the concatenation of the values, LSB first:
+// bytes_written() = ceil(sum n_i / 8) = length of the consumed buffer; bit j of the buffer is bit
+// (j - start_i) of the value whose range contains j; the padding bits of the last byte are 0.
+// (K = 2 crosses the 64-bit accumulator boundary once, K = 3 twice.)
+fn put_value_layout<const K: usize>() {
+    let n: [usize; K] = kani::any();
+    let mut v = [0u64; K];
+    let mut w = BitWriter::new(32);
+    let mut total = 0;
+    let mut k = 0;
+    while k < K {
+        v[k] = any_value_of_width(n[k]);
+        w.put_value(v[k], n[k]);
+        total += n[k];
+        k += 1;
+    }
+    let nbytes = (total + 7) / 8;
+    assert!(w.bytes_written() == nbytes);
+    let buf = w.consume();
+    assert!(buf.len() == nbytes);
+    let j: usize = kani::any();
+    if j < nbytes * 8 {
+        // spec: walk the value ranges
+        let mut expect = false;
+        let mut start = 0;
+        let mut k = 0;
+        while k < K {
+            if j >= start && j < start + n[k] {
+                expect = b64(v[k], j - start);
+            }
+            start += n[k];
+            k += 1;
+        }
+        assert!(bit(&buf, j) == expect);
+        kani::cover!(n[0] == 63 && n[1] == 2 && j == 64 && expect);
+        kani::cover!(total % 8 != 0 && j >= total);
+    }
+    kani::cover!(n[0] == 64 && n[K - 1] == 64 && total == 64 * K);
+    kani::cover!(n[0] == 0 && n[1] == 3 && total == 3);
+    kani::cover!(total == 0);
+}
+// @unit name=bitwriter_put_value_layout_k2 props=C05 kind=bounded bound=2_values_widths_0..=64 fns=BitWriter::put_value,BitWriter::flush,BitWriter::consume,BitWriter::bytes_written tier=quick timeout=480 mem=3
+#[kani::proof]
+#[kani::unwind(10)]
+fn bitwriter_put_value_layout_k2() {
+    put_value_layout::<2>()
+}
+// @unit name=bitwriter_put_value_layout_k3 props=C05 kind=bounded bound=3_values_widths_0..=64 fns=BitWriter::put_value,BitWriter::flush,BitWriter::consume,BitWriter::bytes_written tier=thorough timeout=900 mem=4
+#[kani::proof]
+#[kani::unwind(10)]
+fn bitwriter_put_value_layout_k3() {
+    put_value_layout::<3>()
+}
+
+// Contract (C05): skip(K) first pads the pending bits to a byte boundary with zeros (flush), returns
+// the offset of the reserved region, and appends exactly K zero bytes; byte_offset()/bytes_written()
+// count exactly; flush on an aligned writer changes nothing. The first value (any width 0..=20) stays
+// intact in front. Grid over K (allocation size concrete per harness).
+fn bitwriter_skip_at<const K: usize>() {
+    let n0: usize = kani::any();
+    kani::assume(n0 <= 20);
+    let v0 = any_value_of_width(n0);
+    let mut w = BitWriter::new(32);
+    w.put_value(v0, n0);
+    let head = (n0 + 7) / 8;
+    let off = w.skip(K);
+    assert!(off == head);
+    assert!(w.byte_offset() == head + K && w.bytes_written() == head + K);
+    w.flush();
+    assert!(w.byte_offset() == head + K && w.bytes_written() == head + K);
+    let buf = w.consume();
+    assert!(buf.len() == head + K);
+    let j: usize = kani::any();
+    if j < buf.len() * 8 {
+        assert!(bit(&buf, j) == (j < n0 && b64(v0, j)));
+    }
+    kani::cover!(n0 == 0);
+    kani::cover!(n0 == 13 && j == 12 && bit(&buf, j));
+    kani::cover!(n0 == 16);
+}
+// @unit name=bitwriter_skip_0 props=C05 kind=bounded bound=skip_0_bytes_after_one_value<=20_bits fns=BitWriter::skip,BitWriter::flush,BitWriter::byte_offset,BitWriter::bytes_written timeout=240
+#[kani::proof]
+#[kani::unwind(10)]
+fn bitwriter_skip_0() {
+    bitwriter_skip_at::<0>()
+}
+// @unit name=bitwriter_skip_3 props=C05 kind=bounded bound=skip_3_bytes_after_one_value<=20_bits fns=BitWriter::skip,BitWriter::flush,BitWriter::byte_offset,BitWriter::bytes_written timeout=240
+#[kani::proof]
+#[kani::unwind(10)]
+fn bitwriter_skip_3() {
+    bitwriter_skip_at::<3>()
+}
+
+// Contract (C05): put_aligned::<u64>(x, NB) pads the pending bits to a byte boundary and appends the
+// first min(NB, 8) little-endian bytes of x (truncating the high-order bytes), nothing else.
+fn bitwriter_put_aligned_at<const NB: usize>() {
+    let n0: usize = kani::any();
+    kani::assume(n0 <= 20);
+    let v0 = any_value_of_width(n0);
+    let mut w = BitWriter::new(32);
+    w.put_value(v0, n0);
+    let head = (n0 + 7) / 8;
+    let x: u64 = kani::any();
+    w.put_aligned::<u64>(x, NB);
+    let m = if NB < 8 { NB } else { 8 };
+    assert!(w.bytes_written() == head + m && w.byte_offset() == head + m);
+    let buf = w.consume();
+    assert!(buf.len() == head + m);
+    let j: usize = kani::any();
+    if j < buf.len() * 8 {
+        if j < head * 8 {
+            assert!(bit(&buf, j) == (j < n0 && b64(v0, j)));
+        } else {
+            assert!(bit(&buf, j) == b64(x, j - head * 8));
+        }
+    }
+    kani::cover!(n0 == 0);
+    kani::cover!(n0 == 9 && j == 16 + 8 * m - 1);
+}
+// @unit name=bitwriter_put_aligned_0 props=C05 kind=bounded bound=num_bytes=0_after_one_value<=20_bits fns=BitWriter::put_aligned timeout=240
+#[kani::proof]
+#[kani::unwind(10)]
+fn bitwriter_put_aligned_0() {
+    bitwriter_put_aligned_at::<0>()
+}
+// @unit name=bitwriter_put_aligned_3 props=C05 kind=bounded bound=num_bytes=3_after_one_value<=20_bits fns=BitWriter::put_aligned timeout=240
+#[kani::proof]
+#[kani::unwind(10)]
+fn bitwriter_put_aligned_3() {
+    bitwriter_put_aligned_at::<3>()
+}
+// @unit name=bitwriter_put_aligned_8 props=C05 kind=bounded bound=num_bytes=8_after_one_value<=20_bits fns=BitWriter::put_aligned timeout=240
+#[kani::proof]
+#[kani::unwind(10)]
+fn bitwriter_put_aligned_8() {
+    bitwriter_put_aligned_at::<8>()
+}
+// @unit name=bitwriter_put_aligned_11 props=C05 kind=bounded bound=num_bytes=11_after_one_value<=20_bits fns=BitWriter::put_aligned timeout=240
+#[kani::proof]
+#[kani::unwind(10)]
+fn bitwriter_put_aligned_11() {
+    bitwriter_put_aligned_at::<11>()
+}
+
+// Contract (C05): on a 6-byte buffer with arbitrary contents, put_aligned_offset::<u32>(y, nb, off)
+// (precondition from its documented panic: off + min(nb,4) <= 6) overwrites exactly the bytes
+// [off, off+min(nb,4)) with the first little-endian bytes of y and leaves every other byte and the
+// length unchanged; write_at(o, b) changes exactly byte o.
+// @unit name=bitwriter_put_aligned_offset_frame props=C05 kind=bounded bound=buffer=6_bytes fns=BitWriter::put_aligned_offset,BitWriter::write_at timeout=240
+#[kani::proof]
+#[kani::unwind(10)]
+fn bitwriter_put_aligned_offset_frame() {
+    let init: [u8; 6] = kani::any();
+    let mut w = BitWriter::new_from_buf(init.to_vec());
+    let y: u32 = kani::any();
+    let nb: usize = kani::any();
+    let off: usize = kani::any();
+    let m = if nb < 4 { nb } else { 4 };
+    kani::assume(off <= 6 && off + m <= 6);
+    w.put_aligned_offset::<u32>(y, nb, off);
+    let yb = y.to_le_bytes();
+    let i: usize = kani::any();
+    kani::assume(i < 6);
+    assert!(w.bytes_written() == 6);
+    if i >= off && i < off + m {
+        assert!(w.buffer()[i] == yb[i - off]);
+    } else {
+        assert!(w.buffer()[i] == init[i]);
+    }
+    let mid: [u8; 6] = w.buffer().try_into().unwrap();
+    let o: usize = kani::any();
+    let b: u8 = kani::any();
+    kani::assume(o < 6);
+    w.write_at(o, b);
+    assert!(w.buffer()[i] == if i == o { b } else { mid[i] });
+    assert!(w.bytes_written() == 6);
+    kani::cover!(nb == 0);
+    kani::cover!(nb > 4 && off == 2);
+    kani::cover!(nb == 3 && off == 3 && i == 5);
+}
+
+// Contract (C05): for every u64 v, put_vlq_int(v) emits the canonical LEB128 string: L = max(1,
+// ceil(bitlen(v)/7)) bytes (1..=10), byte i carries bits [7i, 7i+7) of v, continuation bit set exactly
+// on the first L-1 bytes; BitReader::get_vlq_int on these bytes returns Some(v) and consumes all L bytes.
+// @unit name=vlq_int_roundtrip props=C05 kind=complete fns=BitWriter::put_vlq_int,BitReader::get_vlq_int tier=quick timeout=240 mem=3
+#[kani::proof]
+#[kani::unwind(12)]
+fn vlq_int_roundtrip() {
+    let v: u64 = kani::any();
+    let mut w = BitWriter::new(16);
+    w.put_vlq_int(v);
+    let bytes = w.consume();
+    let len = bytes.len();
+    let bitlen = 64 - v.leading_zeros() as usize;
+    let want = if v == 0 { 1 } else { (bitlen + 6) / 7 };
+    assert!(len == want && len >= 1 && len <= MAX_VLQ_BYTE_LEN);
+    let i: usize = kani::any();
+    kani::assume(i < len);
+    assert!((bytes[i] & 0x7f) as u64 == (v >> (7 * i)) & 0x7f);
+    assert!((bytes[i] & 0x80 != 0) == (i + 1 < len));
+    let mut r = BitReader::from(bytes);
+    let got = r.get_vlq_int();
+    assert!(got == Some(v as i64));
+    assert!(r.get_byte_offset() == len);
+    kani::cover!(len == 1);
+    kani::cover!(len == 10);
+    kani::cover!(len == 5);
+    std::mem::forget(r);
+}
+
+// Contract (C05): for every i64 v, put_zigzag_vlq_int(v) then get_zigzag_vlq_int returns Some(v) and
+// consumes every byte; the encoded length is that of the zig-zag image 2|v| - [v<0] (small magnitudes
+// of either sign are short: |v| < 64 gives one byte).
+// @unit name=zigzag_vlq_int_roundtrip props=C05 kind=complete fns=BitWriter::put_zigzag_vlq_int,BitReader::get_zigzag_vlq_int tier=quick timeout=240 mem=3
+#[kani::proof]
+#[kani::unwind(12)]
+fn zigzag_vlq_int_roundtrip() {
+    let v: i64 = kani::any();
+    let mut w = BitWriter::new(16);
+    w.put_zigzag_vlq_int(v);
+    let bytes = w.consume();
+    let len = bytes.len();
+    assert!(len >= 1 && len <= 10);
+    // zig-zag image computed in 128-bit arithmetic: 2v for v >= 0, -2v-1 for v < 0
+    let z: i128 = if v >= 0 { 2 * v as i128 } else { -2 * (v as i128) - 1 };
+    assert!((len == 1) == (z < 128));
+    assert!((len == 10) == (z >= 1i128 << 63));
+    let mut r = BitReader::from(bytes);
+    let got = r.get_zigzag_vlq_int();
+    assert!(got == Some(v));
+    assert!(r.get_byte_offset() == len);
+    kani::cover!(v == i64::MIN);
+    kani::cover!(v == i64::MAX);
+    kani::cover!(v == -64 && len == 1);
+    kani::cover!(v == 64 && len == 2);
+    std::mem::forget(r);
+}
+
+// ---------------------------------------------------------------------------------------------
+// C05/C08 BitReader on arbitrary buffers: functional model = a bit cursor `pos` over the byte string.
+//
+// Inductive scheme. INV(r) relates the private fields to the model:
+//     pos = 8*byte_offset + bit_offset <= 8*len,  bit_offset < 64,
+//     bit_offset != 0  ==>  buffered_values = little-endian load of min(8, len - byte_offset) bytes at byte_offset
+// BitReader::new establishes INV with pos = 0 (bitreader_new_inv). Each bitreader_inv_* unit starts from an
+// ARBITRARY state satisfying INV (fields set directly; child module), runs ONE operation with arbitrary
+// arguments, and proves: no panic, result = model, new pos = model, INV again. By induction every finite
+// sequence of these operations on a buffer of that size follows the model; bitreader_get_value_k2/k3
+// additionally run short sequences from `new` end to end.
+// ---------------------------------------------------------------------------------------------
+
+/// reader over the first n bytes of a (the only allocation is the Bytes itself)
+fn reader_of<const N: usize>(a: &[u8; N], n: usize) -> BitReader {
+    BitReader::from(a[..n].to_vec())
+}
+
+/// the little-endian integer made of bytes [at, at+nb) of buf (nb <= 8); written without a loop so
+/// that harnesses with a small unwind bound can use it
+fn spec_le(buf: &[u8], at: usize, nb: usize) -> u64 {
+    let mut v = 0u64;
+    if nb > 0 { v |= buf[at] as u64; }
+    if nb > 1 { v |= (buf[at + 1] as u64) << 8; }
+    if nb > 2 { v |= (buf[at + 2] as u64) << 16; }
+    if nb > 3 { v |= (buf[at + 3] as u64) << 24; }
+    if nb > 4 { v |= (buf[at + 4] as u64) << 32; }
+    if nb > 5 { v |= (buf[at + 5] as u64) << 40; }
+    if nb > 6 { v |= (buf[at + 6] as u64) << 48; }
+    if nb > 7 { v |= (buf[at + 7] as u64) << 56; }
+    v
+}
+
+fn inv<const N: usize>(r: &BitReader, a: &[u8; N], len: usize) -> bool {
+    r.buffer.len() == len
+        && r.bit_offset < 64
+        && r.byte_offset <= len
+        && r.byte_offset * 8 + r.bit_offset <= len * 8
+        && (r.bit_offset == 0 || {
+            let k = if len - r.byte_offset < 8 { len - r.byte_offset } else { 8 };
+            r.buffered_values == spec_le(a, r.byte_offset, k)
+        })
+}
+
+/// an arbitrary reader state satisfying INV over an arbitrary buffer of <= N bytes; returns (reader, bytes, len, pos)
+fn any_reader<const N: usize>() -> (BitReader, [u8; N], usize, usize) {
+    let (a, len) = any_prefix::<N>();
+    let mut r = reader_of(&a, len);
+    r.byte_offset = kani::any();
+    r.bit_offset = kani::any();
+    r.buffered_values = kani::any();
+    kani::assume(inv(&r, &a, len));
+    let pos = r.byte_offset * 8 + r.bit_offset;
+    (r, a, len, pos)
+}
+
+/// number of whole nb-bit values to deliver: the largest m <= want with m*nb <= remaining bits
+/// (stated as a characterisation, no division)
+fn is_batch_count(m: usize, want: usize, nb: usize, remaining: usize) -> bool {
+    m <= want && m * nb <= remaining && (m == want || (m + 1) * nb > remaining)
+}
+
+/// LEB128 model on a byte string: Some((value mod 2^64, bytes used)) for the first terminated group
+/// sequence starting at `at`, None if the input ends first. (No length limit: the model is total.)
+fn spec_vlq(buf: &[u8], at: usize, len: usize) -> Option<(u64, usize)> {
+    let mut v = 0u64;
+    let mut i = 0;
+    while at + i < len {
+        let b = buf[at + i];
+        if 7 * i < 64 {
+            v |= ((b & 0x7f) as u64) << (7 * i);
+        }
+        if b & 0x80 == 0 {
+            return Some((v, i + 1));
+        }
+        i += 1;
+    }
+    None
+}
+
+// Contract (C08): BitReader::new / From<Vec<u8>> / reset establish INV with the cursor at bit 0.
+// @unit name=bitreader_new_inv props=C08,C05 kind=bounded bound=buffer<=12_bytes fns=BitReader::new,BitReader::reset,BitReader::get_byte_offset timeout=240
+#[kani::proof]
+#[kani::unwind(14)]
+fn bitreader_new_inv() {
+    let (a, len) = any_prefix::<12>();
+    let mut r = reader_of(&a, len);
+    assert!(inv(&r, &a, len) && r.byte_offset == 0 && r.bit_offset == 0 && r.get_byte_offset() == 0);
+    let (b, lb) = any_prefix::<12>();
+    r.byte_offset = kani::any();
+    r.bit_offset = kani::any();
+    let old = std::mem::replace(&mut r.buffer, Bytes::new());
+    std::mem::forget(old);
+    r.reset(Bytes::from(b[..lb].to_vec()));
+    assert!(inv(&r, &b, lb) && r.byte_offset == 0 && r.bit_offset == 0);
+    kani::cover!(len == 12 && lb == 0);
+    std::mem::forget(r);
+}
+
+// Contract (C05, C08): from ANY state satisfying INV over an arbitrary buffer (<= 17 bytes, symbolic
+// length) get_value::<u64>(n), any n in 0..=64: returns Some(v) iff n bits remain; v is then exactly
+// the stream bits [pos, pos+n), LSB first, zero-extended, and pos advances by n; otherwise None and
+// nothing moves. INV holds afterwards. Never panics.
+// @unit name=bitreader_inv_get_value props=C05,C08 kind=bounded bound=one_step_from_any_state_buffer<=17_bytes fns=BitReader::get_value,BitReader::load_buffered_values,BitReader::get_byte_offset tier=quick timeout=480 mem=3
+#[kani::proof]
+#[kani::unwind(10)]
+fn bitreader_inv_get_value() {
+    let (mut r, a, len, pos) = any_reader::<17>();
+    let n: usize = kani::any();
+    kani::assume(n <= 64);
+    let got: Option<u64> = r.get_value(n);
+    let avail = pos + n <= len * 8;
+    assert!(got.is_some() == avail);
+    let jb: usize = kani::any();
+    kani::assume(jb < 64);
+    if avail {
+        assert!(b64(got.unwrap(), jb) == (jb < n && bit(&a, pos + jb)));
+    }
+    assert!(r.byte_offset * 8 + r.bit_offset == if avail { pos + n } else { pos });
+    assert!(r.get_byte_offset() == (r.byte_offset * 8 + r.bit_offset + 7) / 8);
+    assert!(inv(&r, &a, len));
+    kani::cover!(avail && n == 64 && pos == 63 && jb == 63 && bit(&a, pos + jb));
+    kani::cover!(avail && n == 64 && pos % 64 == 0);
+    kani::cover!(avail && n == 0);
+    kani::cover!(avail && pos == 21 && n == 43); // lands exactly on the 64-bit word boundary
+    kani::cover!(avail && pos == 8 * 9 + 5 && n == 59 && len == 17);
+    kani::cover!(!avail && pos > 0 && n < 8);
+    std::mem::forget(r);
+}
+
+// Contract (C05, C08): get_value::<T> for the narrower T (precondition = its debug assertion
+// n <= 8*size_of::<T>(); bool: n <= 1): same contract, the n bits zero-extended into T (bool: the bit).
+macro_rules! inv_get_value_narrow {
+    ($name:ident, $t:ty, $cap:expr, $x:ident => $conv:expr) => {
+        #[kani::proof]
+        #[kani::unwind(10)]
+        fn $name() {
+            let (mut r, a, len, pos) = any_reader::<12>();
+            let n: usize = kani::any();
+            kani::assume(n <= $cap);
+            let got: Option<$t> = r.get_value(n);
+            let avail = pos + n <= len * 8;
+            assert!(got.is_some() == avail);
+            let jb: usize = kani::any();
+            kani::assume(jb < 64);
+            if avail {
+                let $x = got.unwrap();
+                let v: u64 = $conv;
+                assert!(b64(v, jb) == (jb < n && bit(&a, pos + jb)));
+            }
+            assert!(r.byte_offset * 8 + r.bit_offset == if avail { pos + n } else { pos });
+            assert!(inv(&r, &a, len));
+            kani::cover!(avail && n == $cap && pos == 63 && jb == $cap - 1 && bit(&a, pos + jb));
+            kani::cover!(avail && n == 0);
+            kani::cover!(!avail && pos > 0);
+            std::mem::forget(r);
+        }
+    };
+}
+// @unit name=bitreader_inv_get_value_u8 props=C05,C08 kind=bounded bound=one_step_from_any_state_buffer<=12_bytes fns=BitReader::get_value,FromBitpacked<u8>::from_u64 timeout=480 mem=3
+inv_get_value_narrow!(bitreader_inv_get_value_u8, u8, 8, x => x as u64);
+// @unit name=bitreader_inv_get_value_u16 props=C05,C08 kind=bounded bound=one_step_from_any_state_buffer<=12_bytes fns=BitReader::get_value,FromBitpacked<u16>::from_u64 timeout=480 mem=3
+inv_get_value_narrow!(bitreader_inv_get_value_u16, u16, 16, x => x as u64);
+// @unit name=bitreader_inv_get_value_i32 props=C05,C08 kind=bounded bound=one_step_from_any_state_buffer<=12_bytes fns=BitReader::get_value,FromBitpacked<i32>::from_u64 timeout=480 mem=3
+inv_get_value_narrow!(bitreader_inv_get_value_i32, i32, 32, x => x as u32 as u64);
+// @unit name=bitreader_inv_get_value_i64 props=C05,C08 kind=bounded bound=one_step_from_any_state_buffer<=12_bytes fns=BitReader::get_value,FromBitpacked<i64>::from_u64 timeout=480 mem=3
+inv_get_value_narrow!(bitreader_inv_get_value_i64, i64, 64, x => x as u64);
+// @unit name=bitreader_inv_get_value_bool props=C05,C08 kind=bounded bound=one_step_from_any_state_buffer<=12_bytes fns=BitReader::get_value,FromBitpacked<bool>::from_u64 timeout=480 mem=3
+inv_get_value_narrow!(bitreader_inv_get_value_bool, bool, 1, x => x as u64);
+
+// Contract (C05, C08): K successive get_value::<u64>(n_i) from BitReader::new on an arbitrary buffer,
+// any widths 0..=64, end to end against the same model (base case + K steps of the induction).
+fn get_value_seq<const K: usize, const N: usize>() {
+    let (a, len) = any_prefix::<N>();
+    let mut r = reader_of(&a, len);
+    let mut pos = 0usize;
+    let jb: usize = kani::any(); // checked bit of each result
+    kani::assume(jb < 64);
+    let mut nones = 0;
+    let mut k = 0;
+    while k < K {
+        let n: usize = kani::any();
+        kani::assume(n <= 64);
+        let got: Option<u64> = r.get_value(n);
+        if pos + n <= len * 8 {
+            assert!(got.is_some());
+            let v = got.unwrap();
+            assert!(b64(v, jb) == (jb < n && bit(&a, pos + jb)));
+            pos += n;
+        } else {
+            assert!(got.is_none());
+            nones += 1;
+        }
+        assert!(r.byte_offset * 8 + r.bit_offset == pos);
+        assert!(r.get_byte_offset() == (pos + 7) / 8);
+        k += 1;
+    }
+    kani::cover!(nones == 0 && pos == 64 * K);
+    kani::cover!(nones == K);
+    kani::cover!(nones == 1 && pos == len * 8 && pos > 0);
+    kani::cover!(len == 0);
+    std::mem::forget(r);
+}
+// @unit name=bitreader_get_value_k2 props=C05,C08 kind=bounded bound=2_calls_buffer<=16_bytes fns=BitReader::get_value,BitReader::load_buffered_values,BitReader::get_byte_offset tier=quick timeout=480 mem=3
+#[kani::proof]
+#[kani::unwind(10)]
+fn bitreader_get_value_k2() {
+    get_value_seq::<2, 16>()
+}
+// @unit name=bitreader_get_value_k3 props=C05,C08 kind=bounded bound=3_calls_buffer<=24_bytes fns=BitReader::get_value,BitReader::load_buffered_values,BitReader::get_byte_offset tier=thorough timeout=900 mem=4
+#[kani::proof]
+#[kani::unwind(10)]
+fn bitreader_get_value_k3() {
+    get_value_seq::<3, 24>()
+}
+
+// Contract (C05, C08): from any INV state, get_aligned::<T>(nb) (precondition from the call sites:
+// nb <= size_of::<T>()): the cursor first moves to the next byte boundary p = ceil(pos/8); if
+// p + nb <= len the result is Some(little-endian value of bytes [p, p+nb), zero-extended; bool: != 0)
+// and the cursor is p + nb; otherwise None and the cursor stays at p. INV afterwards.
+// @unit name=bitreader_inv_get_aligned props=C05,C08 kind=bounded bound=one_step_from_any_state_buffer<=12_bytes fns=BitReader::get_aligned,read_num_bytes,FromBytes::from_le_bytes tier=quick timeout=480 mem=3
+#[kani::proof]
+#[kani::unwind(10)]
+fn bitreader_inv_get_aligned() {
+    let (mut r, a, len, pos) = any_reader::<12>();
+    let p = (pos + 7) / 8;
+    let nb: usize = kani::any();
+    let which: u8 = kani::any();
+    kani::assume(nb <= match which { 0 => 8, 1 => 4, _ => 1 });
+    let avail = p + nb <= len;
+    let want = if avail { spec_le(&a, p, nb) } else { 0 };
+    match which {
+        0 => {
+            let g: Option<u64> = r.get_aligned(nb);
+            assert!(g.is_some() == avail);
+            assert!(!avail || g.unwrap() == want);
+        }
+        1 => {
+            let g: Option<u32> = r.get_aligned(nb);
+            assert!(g.is_some() == avail);
+            assert!(!avail || g.unwrap() as u64 == want);
+        }
+        2 => {
+            let g: Option<u8> = r.get_aligned(nb);
+            assert!(g.is_some() == avail);
+            assert!(!avail || g.unwrap() as u64 == want);
+        }
+        _ => {
+            let g: Option<bool> = r.get_aligned(nb);
+            assert!(g.is_some() == avail);
+            assert!(!avail || g.unwrap() == (want != 0));
+        }
+    }
+    assert!(r.bit_offset == 0 && r.byte_offset == if avail { p + nb } else { p });
+    assert!(inv(&r, &a, len));
+    kani::cover!(which == 0 && avail && nb == 8 && pos == 3);
+    kani::cover!(which == 0 && avail && nb == 0);
+    kani::cover!(which == 1 && !avail && p == len);
+    kani::cover!(which == 3 && avail && nb == 1 && want == 2);
+    std::mem::forget(r);
+}
+
+// Contract (C08) — EXPECTED TO FAIL ON THE UNCHANGED TREE (candidate finding F2). For ARBITRARY bytes
+// (<= 12, symbolic length) and any reader state, get_vlq_int and get_zigzag_vlq_int return — they
+// never panic: Some(v) with the cursor just after the terminating byte when a byte without
+// continuation bit occurs, None when the input is exhausted (or, were the code to reject them,
+// for over-long encodings). Failing obligations on the unchanged code: `attempt to shift left with
+// overflow` at bit_util.rs:890 (and behind it `assert!(shift <= MAX_VLQ_BYTE_LEN * 7)` at :892)
+// whenever the aligned remainder starts with 11 bytes >= 0x80.
+// @unit name=bitreader_get_vlq_int_total props=C08 kind=bounded bound=buffer<=12_bytes fns=BitReader::get_vlq_int,BitReader::get_zigzag_vlq_int tier=quick timeout=480 mem=3
+#[kani::proof]
+#[kani::unwind(14)]
+fn bitreader_get_vlq_int_total() {
+    let (mut r, a, len, pos) = any_reader::<12>();
+    let p = (pos + 7) / 8;
+    let zz: bool = kani::any();
+    let got = if zz { r.get_zigzag_vlq_int() } else { r.get_vlq_int() };
+    let model = spec_vlq(&a, p, len);
+    match got {
+        Some(v) => {
+            // a value is only ever produced from a terminated group sequence, and it is that value
+            assert!(model.is_some());
+            let (u, used) = model.unwrap();
+            assert!(r.byte_offset == p + used && r.bit_offset == 0);
+            let want = if zz { ((u >> 1) as i64) ^ -((u & 1) as i64) } else { u as i64 };
+            assert!(used > 10 || v == want);
+        }
+        None => {
+            // None only when the input ran out or the encoding is over-long
+            assert!(model.is_none() || model.unwrap().1 > 10);
+        }
+    }
+    assert!(inv(&r, &a, len));
+    kani::cover!(got.is_none() && len == 12);
+    kani::cover!(got.is_some() && model.unwrap().1 == 10);
+    kani::cover!(got == Some(-1) && zz);
+    std::mem::forget(r);
+}
+
+// Contract (C05, C08): the same model restricted to buffers of <= 10 bytes, where an over-long
+// encoding cannot occur: from any INV state get_vlq_int = Some(LEB128 value) with the cursor after the
+// terminator iff a terminator exists in the aligned remainder, else None with the cursor at the
+// alignment boundary; get_zigzag_vlq_int = the zig-zag decoding of the same. INV afterwards.
+// (passes on the unchanged tree)
+// @unit name=bitreader_inv_get_vlq_int_le10 props=C05,C08 kind=bounded bound=one_step_from_any_state_buffer<=10_bytes fns=BitReader::get_vlq_int,BitReader::get_zigzag_vlq_int tier=quick timeout=480 mem=3
+#[kani::proof]
+#[kani::unwind(12)]
+fn bitreader_inv_get_vlq_int_le10() {
+    let (mut r, a, len, pos) = any_reader::<10>();
+    let p = (pos + 7) / 8;
+    let zz: bool = kani::any();
+    let got = if zz { r.get_zigzag_vlq_int() } else { r.get_vlq_int() };
+    let model = spec_vlq(&a, p, len);
+    match model {
+        Some((u, used)) => {
+            let want = if zz { ((u >> 1) as i64) ^ -((u & 1) as i64) } else { u as i64 };
+            assert!(got == Some(want));
+            assert!(r.byte_offset == p + used && r.bit_offset == 0);
+        }
+        None => {
+            assert!(got.is_none());
+            assert!(r.byte_offset == p && r.bit_offset == 0);
+        }
+    }
+    assert!(inv(&r, &a, len));
+    kani::cover!(got.is_none() && len == 10);
+    kani::cover!(got.is_some() && model.unwrap().1 == 10);
+    kani::cover!(got == Some(i64::MIN) && zz);
+    kani::cover!(got.is_some() && p == 1 && pos == 3);
+    std::mem::forget(r);
+}
+
+// Contract (C05, C08): from any INV state skip(nv, nb), nb <= 64 (debug assertion), nv <= 2^32
+// (precondition: nv*nb must not overflow usize; callers pass counts bounded by a u32 run length):
+// returns m = min(nv, remaining_bits div nb) (nv when nb = 0), the cursor advances by exactly m*nb
+// bits, INV afterwards (so the next read sees the right word). Never panics.
+// @unit name=bitreader_inv_skip props=C05,C08 kind=bounded bound=one_step_from_any_state_buffer<=17_bytes fns=BitReader::skip tier=quick timeout=480 mem=3
+#[kani::proof]
+#[kani::unwind(10)]
+fn bitreader_inv_skip() {
+    let (mut r, a, len, pos) = any_reader::<17>();
+    let nv: usize = kani::any();
+    let nb: usize = kani::any();
+    kani::assume(nb <= 64 && nv <= 1 << 32);
+    let m = r.skip(nv, nb);
+    assert!(is_batch_count(m, nv, nb, len * 8 - pos));
+    assert!(r.byte_offset * 8 + r.bit_offset == pos + m * nb);
+    assert!(inv(&r, &a, len));
+    kani::cover!(m == nv && nv == 3 && nb == 7 && pos == 2);
+    kani::cover!(m < nv && m == 2 && nb == 64);
+    kani::cover!(nb == 0 && m == 1 << 32);
+    kani::cover!(m == 0 && nv > 0);
+    kani::cover!(r.bit_offset == 5 && r.byte_offset == 16);
+    std::mem::forget(r);
+}
+
+// Contract (C05, C08): get_batch::<u8>(batch[..L], nb) (documented precondition nb <= 8) against the
+// model: returns m = min(L, remaining_bits div nb) (L when nb = 0); batch[i] for i < m is exactly the
+// i-th nb-bit group at the cursor — what repeated get_value(nb) delivers — batch[i] for i >= m is
+// untouched; the cursor advances by m*nb bits; INV afterwards; never panics. Two families of start
+// states/batch sizes keep the loops short (each loop iteration inlines a get_value; a batch of 11 from any
+// state, and even 8..=10 values with a possibly short buffer, exceeded 10 GB):
+//  _small : ANY INV state, L <= 2, every width 0..=8  (alignment loop, trailing loop, short buffers; no fast path)
+//  _fast_w: any BYTE-ALIGNED INV state (bit_offset = 0, any byte_offset) holding >= 8 more values of width
+//           W, L = 8 (exactly one unpack8 call, the SIMD-friendly path)
+// @unit name=bitreader_inv_get_batch_u8_small props=C05,C08 kind=bounded bound=batch<=2_any_state_buffer<=12_bytes fns=BitReader::get_batch tier=thorough timeout=900 mem=6
+#[kani::proof]
+#[kani::unwind(4)]
+fn bitreader_inv_get_batch_u8_small() {
+    let (mut r, a, len, pos) = any_reader::<12>();
+    let init: [u8; 2] = kani::any();
+    let mut batch = init;
+    let l: usize = kani::any();
+    kani::assume(l <= 2);
+    let nb: usize = kani::any();
+    kani::assume(nb <= 8);
+    let m = r.get_batch::<u8>(&mut batch[..l], nb);
+    assert!(is_batch_count(m, l, nb, len * 8 - pos));
+    let i: usize = kani::any();
+    kani::assume(i < 2);
+    let jb: usize = kani::any();
+    kani::assume(jb < 8);
+    if i < m {
+        assert!(b64(batch[i] as u64, jb) == (jb < nb && bit(&a, pos + i * nb + jb)));
+    } else {
+        assert!(batch[i] == init[i]);
+    }
+    assert!(r.byte_offset * 8 + r.bit_offset == pos + m * nb);
+    assert!(inv(&r, &a, len));
+    kani::cover!(m == 2 && nb == 8 && pos == 61);
+    kani::cover!(m == 2 && nb == 5 && pos == 64 - 5); // one alignment read, one trailing read
+    kani::cover!(m == 1 && l == 2 && nb == 7);
+    kani::cover!(nb == 0 && m == 2);
+    kani::cover!(l == 0);
+    std::mem::forget(r);
+}
+fn inv_get_batch_u8_fast<const W: usize>() {
+    let (mut r, a, len, pos) = any_reader::<12>();
+    kani::assume(r.bit_offset == 0 && pos + 8 * W <= len * 8);
+    let mut batch: [u8; 8] = kani::any();
+    let m = r.get_batch::<u8>(&mut batch, W);
+    assert!(m == 8);
+    let i: usize = kani::any();
+    kani::assume(i < 8);
+    let jb: usize = kani::any();
+    kani::assume(jb < 8);
+    assert!(b64(batch[i] as u64, jb) == (jb < W && bit(&a, pos + i * W + jb)));
+    assert!(r.byte_offset * 8 + r.bit_offset == pos + 8 * W);
+    assert!(inv(&r, &a, len));
+    kani::cover!(pos == 8 && i == 7 && jb + 1 == W && batch[7] >> jb == 1);
+    kani::cover!(pos + 8 * W == len * 8 && len == 12);
+    std::mem::forget(r);
+}
+// @unit name=bitreader_inv_get_batch_u8_fast_w1 props=C05,C08 kind=bounded bound=width=1_batch=8_aligned_state_buffer<=12_bytes fns=BitReader::get_batch,FromBitpacked<u8>::unpack_batch,unpack8 tier=thorough timeout=900 mem=6
+#[kani::proof]
+#[kani::unwind(2)]
+fn bitreader_inv_get_batch_u8_fast_w1() {
+    inv_get_batch_u8_fast::<1>()
+}
+// @unit name=bitreader_inv_get_batch_u8_fast_w3 props=C05,C08 kind=bounded bound=width=3_batch=8_aligned_state_buffer<=12_bytes fns=BitReader::get_batch,FromBitpacked<u8>::unpack_batch,unpack8 tier=thorough timeout=900 mem=6
+#[kani::proof]
+#[kani::unwind(2)]
+fn bitreader_inv_get_batch_u8_fast_w3() {
+    inv_get_batch_u8_fast::<3>()
+}
+// @unit name=bitreader_inv_get_batch_u8_fast_w8 props=C05,C08 kind=bounded bound=width=8_batch=8_aligned_state_buffer<=12_bytes fns=BitReader::get_batch,FromBitpacked<u8>::unpack_batch,unpack8 tier=thorough timeout=900 mem=6
+#[kani::proof]
+#[kani::unwind(2)]
+fn bitreader_inv_get_batch_u8_fast_w8() {
+    inv_get_batch_u8_fast::<8>()
+}
+
+// Contract (C05): get_batch::<T> on the CONCRETE shapes that drive every fast path of the wider element
+// types (grid rule: batch length L, width W and buffer length LEN concrete so that the loop structure is
+// static; the LEN buffer bytes are fully symbolic). From a fresh reader with L*W <= 8*LEN:
+// returns L; batch[i] = the i-th W-bit group of the stream, zero-extended into T (for every i < L);
+// the cursor ends at bit L*W. Shapes:
+//   u16  L=25  W=3 : unpack16 (16) + unpack8 (8) + 1 trailing get_value
+//   u32  L=57  W=1 : unpack32 (32) + unpack16 (16) + unpack8 (8) + 1 trailing
+//   i32  L=32  W=5 : the transmuting delegate i32 -> u32
+//   u64  L=121 W=1 : unpack64 (64) + unpack32 (32) + unpack16 (16) + unpack8 (8) + 1 trailing
+//   bool L=9   W=1 : bool via u8 unpack8 (8) + 1 trailing
+macro_rules! get_batch_shape {
+    ($name:ident, $t:ty, $l:expr, $w:expr, $len:expr, $zero:expr, $x:ident => $conv:expr) => {
+        #[kani::proof]
+        #[kani::unwind(66)]
+        fn $name() {
+            let a: [u8; $len] = kani::any();
+            let mut r = BitReader::from(a.to_vec());
+            let mut batch: [$t; $l] = [$zero; $l];
+            let m = r.get_batch::<$t>(&mut batch, $w);
+            assert!(m == $l);
+            let i: usize = kani::any();
+            kani::assume(i < $l);
+            let jb: usize = kani::any();
+            kani::assume(jb < 64);
+            let $x = batch[i];
+            let v: u64 = $conv;
+            assert!(b64(v, jb) == (jb < $w && bit(&a, i * $w + jb)));
+            assert!(r.byte_offset * 8 + r.bit_offset == $l * $w);
+            kani::cover!(i == $l - 1 && v != 0); // last (trailing) value
+            kani::cover!(i == 0 && v + 1 == 1u64 << $w);
+            std::mem::forget(r);
+        }
+    };
+}
+// @unit name=bitreader_get_batch_u16_paths props=C05 kind=bounded bound=shape_L=25_W=3_LEN=10 fns=BitReader::get_batch,FromBitpacked<u16>::unpack_batch,unpack16,unpack8 tier=thorough timeout=900 mem=6
+get_batch_shape!(bitreader_get_batch_u16_paths, u16, 25, 3, 10, 0u16, x => x as u64);
+// @unit name=bitreader_get_batch_u32_paths props=C05 kind=bounded bound=shape_L=57_W=1_LEN=8 fns=BitReader::get_batch,FromBitpacked<u32>::unpack_batch,unpack32,unpack16,unpack8 tier=thorough timeout=900 mem=6
+get_batch_shape!(bitreader_get_batch_u32_paths, u32, 57, 1, 8, 0u32, x => x as u64);
+// @unit name=bitreader_get_batch_i32_delegate props=C05 kind=bounded bound=shape_L=32_W=5_LEN=20 fns=BitReader::get_batch,FromBitpacked<i32>::unpack_batch,unpack32 tier=thorough timeout=900 mem=6
+get_batch_shape!(bitreader_get_batch_i32_delegate, i32, 32, 5, 20, 0i32, x => x as u32 as u64);
+// @unit name=bitreader_get_batch_u64_paths props=C05 kind=bounded bound=shape_L=121_W=1_LEN=16 fns=BitReader::get_batch,FromBitpacked<u64>::unpack_batch,unpack64,unpack32,unpack16,unpack8 tier=thorough timeout=900 mem=8
+get_batch_shape!(bitreader_get_batch_u64_paths, u64, 121, 1, 16, 0u64, x => x);
+// @unit name=bitreader_get_batch_bool_paths props=C05 kind=bounded bound=shape_L=9_W=1_LEN=2 fns=BitReader::get_batch,FromBitpacked<bool>::unpack_batch,unpack8 tier=thorough timeout=900 mem=6
+get_batch_shape!(bitreader_get_batch_bool_paths, bool, 9, 1, 2, false, x => x as u64);
+
+// ---------------------------------------------------------------------------------------------
+// C05 compress (software PEXT)
+// ---------------------------------------------------------------------------------------------
+
+// Contract (C05): compress(value, mask) gathers the bits of `value` selected by `mask` into the low bits,
+// in order: for every set mask bit p, result bit rank(p) = value bit p where rank(p) = number of set mask
+// bits below p; all result bits at or above popcount(mask) are 0. All u64 x u64 (the loop runs
+// popcount(mask) <= 64 times; unwinding assertion on).
+// @unit name=compress_def props=C05 kind=complete fns=compress tier=quick timeout=480 mem=3
+#[kani::proof]
+#[kani::unwind(66)]
+fn compress_def() {
+    let value: u64 = kani::any();
+    let mask: u64 = kani::any();
+    let r = compress(value, mask);
+    let p: usize = kani::any();
+    kani::assume(p < 64);
+    // rank by a naive count
+    let mut rank = 0usize;
+    let mut total = 0usize;
+    let mut i = 0;
+    while i < 64 {
+        if b64(mask, i) {
+            if i < p {
+                rank += 1;
+            }
+            total += 1;
+        }
+        i += 1;
+    }
+    if b64(mask, p) {
+        assert!(b64(r, rank) == b64(value, p));
+    }
+    assert!(p < total || !b64(r, p));
+    kani::cover!(mask == u64::MAX && r == value);
+    kani::cover!(mask == 0);
+    kani::cover!(total == 3 && r == 0b101 && p == 63 && b64(mask, 63));
+}
